@@ -387,8 +387,59 @@ def ref_recursion(depth: int, a: int, b: int, shadow: bool) -> bool:
         g2 = glom(0, spec2, glom_debug=True)
         if g2 != {'out': a, 'in': ('inner', b)}:
             return fail(why='shadowing', g2=g2)
+        # two definitions of the SAME name, one nested in the other; the bare Ref('r') that belongs to the outer one is
+        # evaluated AFTER the inner definition has run: it still means the outer body (data-driven recursion, depth 2)
+        inner2 = Ref('r', lambda v: ('inner', v))
+        outer2 = Ref('r', {'tag': Val('outer'), 'in': (T['i'], inner2),
+                           'after': Coalesce((T['next'], Ref('r')), default=None)})
+        g3 = glom({'i': a, 'next': {'i': b}}, outer2, glom_debug=True)
+        e3 = {'tag': 'outer', 'in': ('inner', a), 'after': {'tag': 'outer', 'in': ('inner', b), 'after': None}}
+        if g3 != e3:
+            return fail(why='an inner definition of the same name leaked out of its own subtree', g3=g3, e3=e3)
     reach('ref')
     return True
+
+
+class PullCount:
+    """one-shot source: counts what was pulled and refuses to be pulled past `limit`"""
+    def __init__(self, items, limit):
+        self.it, self.pulled, self.limit = iter(items), 0, limit
+
+    def __iter__(self):
+        return self
+
+    def __next__(self):
+        if self.pulled >= self.limit:
+            raise RuntimeError('the source was pulled past the element that ended the list')
+        v = next(self.it)              # the natural end (StopIteration) is not a pull
+        self.pulled += 1
+        return v
+
+
+def list_stop_lazy(xs: List[int], s: int, form: int) -> bool:
+    """a list spec over a one-shot / lazy target: STOP ends the list AT that element -- nothing behind it is pulled"""
+    from glom import STOP, SKIP
+    start()
+    form = concretize(form, 0, 2)
+    if form is OUT:
+        return True
+    stop_at = None
+    for i, x in enumerate(xs):
+        if x == s and stop_at is None:
+            stop_at = i
+    exp = [x + 1 for x in (xs if stop_at is None else xs[:stop_at])]
+    src = PullCount(xs, len(xs) + 1 if stop_at is None else stop_at + 1)
+    sub = lambda v: STOP if v == s else v + 1
+    spec = [[sub], ('it', [sub]), {'out': [sub]}][form]
+    tgt = [src, {'it': src}, src][form]
+    got = run(lambda: glom(tgt, spec, glom_debug=True))
+    reach('list_stop_lazy')
+    if stop_at is not None and stop_at < len(xs) - 1:
+        reach('stopped_early')
+    if got.kind != 'ok':
+        return fail(why='the list spec kept pulling after STOP', got=got, xs=xs, s=s)
+    val = got.value['out'] if form == 2 else got.value
+    return (val == exp and src.pulled == (len(xs) if stop_at is None else stop_at + 1)) or fail(why='value / pulls', val=val, exp=exp, pulled=src.pulled)
 
 
 def callable_leaf(x: int, which: int) -> bool:
@@ -482,6 +533,8 @@ def obligations(tier):
             obs.append(Ob(chain_law, fixed={'which': which, 'ka': ka}, pre='0 <= kb < %d and len(xs) <= 2' % NREAL,
                           name='chain_law_w%d_a%d' % (which, ka)))
     obs.append(Ob(ref_recursion, pre='0 <= depth <= 3', name='ref_recursion'))
+    obs.append(Ob(list_stop_lazy, pre='len(xs) <= 4 and 0 <= form <= 2', name='list_stop_lazy'))
+    obs.append(Ob(list_stop_lazy, pre='len(xs) <= 4 and 0 <= form <= 2', twin='stopped_early', name='list_stop_lazy'))
     obs.append(Ob(callable_leaf, pre='0 <= which <= 6', name='callable_leaf'))
     obs.append(Ob(node_step, fixed={'kind': 8, 'n': 3}, pre='0 <= k0 <= 4 and 0 <= k1 <= 4 and 0 <= k2 <= 4', twin='node_err', name='node_step_coalesce'))
     obs.append(Ob(node_step, fixed={'kind': 8, 'n': 3}, pre='0 <= k0 <= 4 and 0 <= k1 <= 4 and 0 <= k2 <= 4', twin='node_ok', name='node_step_coalesce'))
